@@ -1178,9 +1178,279 @@ def _unjs(A):
                      for row in A], float).reshape(len(A), len(A[0]) if A else 0)
 
 
+# ----------------------------------------------------------------------------------------------------
+# cross-cutting families: argument forms, histories (argument objects reused), scales / exact thresholds
+# ----------------------------------------------------------------------------------------------------
+
+def _safe_at(A, e, dr_min, dr_max, e0, k0, rel):
+    """classification only: no decision of the whole run (LU pivots, maxvol pivots / test, rect arg-max / test) is closer
+    than `rel` to a tie, in exact rational arithmetic"""
+    global REL
+    old, REL = REL, rel
+    try:
+        Af = [[Fr(x) for x in row] for row in A]
+        n, r = len(Af), len(Af[0])
+        I0, B0, tf, _ = _sim_lu(Af)
+        I1, B1, _, _, safe, _ = _sim_loop(B0, I0, Fr(e0), k0, False, False)
+        r_max = min(n, n if dr_max is None else r + dr_max)
+        _, _, safe2, _ = _sim_rect(B1, I1, Fr(e), r + dr_min, r_max, _dupclass(Af), False)
+        return bool(tf and safe and safe2)
+    except Singular:
+        return False
+    finally:
+        REL = old
+
+
+def _same(res, ref, tol):
+    if res[0] != ref[0]:
+        return f'outcome {res[0]} instead of {ref[0]}'
+    if res[0] != 0:
+        return None
+    if res[1] != ref[1]:
+        return f'I = {res[1]} instead of {ref[1]}'
+    if res[2].shape != ref[2].shape:
+        return f'B has shape {res[2].shape} instead of {ref[2].shape}'
+    d = np.abs(res[2] - ref[2])
+    if not np.all(d <= tol * np.maximum(1.0, np.abs(ref[2]))):
+        return f'B differs by {float(d.max()):.3e} (allowed {tol:g})'
+    return None
+
+
+def _a_forms(A64):
+    """(name, array-like, documented?, tolerance on B).  A64 is integer valued (|x| <= 8)"""
+    n, r = A64.shape
+    big = np.full((2 * n + 1, 3 * r + 2), 7.5)
+    big[1::2, ::3][:n, :r] = A64
+    out = [('F-ordered float64', np.asfortranarray(A64), True, 1e-12),
+           ('non-contiguous view', big[1::2, ::3][:n, :r], True, 1e-12),
+           ('transposed view of a C array', np.ascontiguousarray(A64.T).T, True, 1e-12),
+           ('int64', A64.astype(np.int64), True, 1e-12), ('int32', A64.astype(np.int32), True, 1e-12),
+           ('int8', A64.astype(np.int8), True, 1e-3), ('float32', A64.astype(np.float32), True, 1e-3),
+           ('float16', A64.astype(np.float16), True, 1e-3),
+           ('list of lists', A64.tolist(), False, 1e-12), ('tuple of tuples', tuple(map(tuple, A64.tolist())), False, 1e-12)]
+    if A64.min() >= 0:
+        out.append(('uint8', A64.astype(np.uint8), True, 1e-3))
+    return out
+
+
+def _snap(x):
+    return (x.tobytes(), x.dtype, x.shape, x.strides) if isinstance(x, np.ndarray) else repr(x)
+
+
+def o_forms08(tn, A, e, dr_min, dr_max, e0, k0):
+    """every form of every argument gives the answer of the canonical call (C-ordered float64 A, Python scalars);
+    undocumented forms may raise.  Returns (failure message or None, list of undocumented forms that raised)"""
+    A64 = np.array(A, dtype=float)
+    n, r = A64.shape
+    dpx = (n - r) if dr_max is None else dr_max
+    calls = dict(maxvol=lambda X, e=e, dm=dr_min, dx=dr_max, e0=e0, k0=k0: tn.maxvol(X, e0, k0),
+                 maxvol_rect=lambda X, e=e, dm=dr_min, dx=dr_max, e0=e0, k0=k0: tn.maxvol_rect(X, e, dm, dx, e0, k0),
+                 _maxvol=lambda X, e=e, dm=dr_min, dx=dpx, e0=e0, k0=k0: tn._maxvol(X, e, dm, dx, e0, k0))
+    ref = {nm: _impl(c, A64.copy()) for nm, c in calls.items()}
+    for nm, v in ref.items():
+        if v[0] != 0:
+            return f'{nm} raised on a valid canonical call (class {v[0]})', []
+    raised = []
+
+    def one(fn, what, doc, tol, **kw):
+        X = kw.pop('X', None)
+        X = A64.copy() if X is None else X
+        before = _snap(X)
+        res = _impl(lambda: calls[fn](X, **kw))
+        if _snap(X) != before:
+            return f'{fn}: the argument A ({what}) was modified by the call'
+        if res[0] != 0 and not doc:
+            raised.append(f'{fn}: {what} -> error class {res[0]}')
+            return None
+        msg = _same(res, ref[fn], tol)
+        return f'{fn} with {what}: {msg}' if msg else None
+
+    for fn in calls:
+        for what, X, doc, tol in _a_forms(A64):
+            msg = one(fn, 'A as ' + what, doc, tol, X=X)
+            if msg:
+                return msg, raised
+    fl = lambda v: [('np.float64', np.float64(v), True), ('0-d array', np.array(float(v)), False)] + \
+        ([('np.float32', np.float32(v), False)] if float(np.float32(v)) == v else []) + \
+        ([('int', int(v), True)] if float(v) == int(v) else [])                                     # noqa
+    it = lambda v: [('np.int64', np.int64(v), False), ('np.int32', np.int32(v), False), ('0-d array', np.array(int(v)), False),
+                    ('float', float(v), False), ('np.uint8', np.uint8(v), False)]                   # noqa
+    for fn in calls:
+        for arg, forms in [('e', fl(e)), ('e0', fl(e0)), ('k0', it(k0)), ('dm', it(dr_min))] + \
+                          ([('dx', it(dr_max if fn != '_maxvol' else dpx))] if dr_max is not None or fn == '_maxvol' else []):
+            if fn == 'maxvol' and arg in ('e', 'dm', 'dx'):
+                continue
+            for nm, v, doc in forms:
+                msg = one(fn, f'{arg} = {nm}({v})', doc, 1e-12, **{arg: v})
+                if msg:
+                    return msg, raised
+    # dr_max: None = n - r = anything larger (clipped); dr_max = 0 = plain maxvol; defaults passed explicitly / by keyword
+    eq = [('dr_max = n - r instead of None', _impl(tn.maxvol_rect, A64.copy(), e, dr_min, n - r, e0, k0),
+           _impl(tn.maxvol_rect, A64.copy(), e, dr_min, None, e0, k0)),
+          ('dr_max = n - r + 3 (clipped) instead of None', _impl(tn.maxvol_rect, A64.copy(), e, dr_min, n - r + 3, e0, k0),
+           _impl(tn.maxvol_rect, A64.copy(), e, dr_min, None, e0, k0)),
+          ('dr_min = dr_max = 0 instead of maxvol', _impl(tn.maxvol_rect, A64.copy(), e, 0, 0, e0, k0), ref['maxvol']),
+          ('_maxvol dr_max = 0 instead of maxvol', _impl(tn._maxvol, A64.copy(), e, 0, 0, e0, k0), ref['maxvol']),
+          ('maxvol: defaults passed explicitly', _impl(tn.maxvol, A64.copy(), 1.05, 100), _impl(tn.maxvol, A64.copy())),
+          ('maxvol: keywords', _impl(lambda: tn.maxvol(A=A64.copy(), k=k0, e=e0)), ref['maxvol']),
+          ('maxvol_rect: defaults passed explicitly', _impl(tn.maxvol_rect, A64.copy(), 1.1, 0, None, 1.05, 10),
+           _impl(tn.maxvol_rect, A64.copy())),
+          ('maxvol_rect: keywords', _impl(lambda: tn.maxvol_rect(A64.copy(), k0=k0, e0=e0, dr_max=dr_max, dr_min=dr_min, e=e)),
+           ref['maxvol_rect']),
+          ('_maxvol: defaults passed explicitly', _impl(tn._maxvol, A64.copy(), 1.1, 0, 0, 1.05, 100), _impl(tn._maxvol, A64.copy())),
+          ('_maxvol: dr_max beyond n - r (clipped)', _impl(tn._maxvol, A64.copy(), e, dr_min, dpx + (n - r) + 2, e0, k0),
+           _impl(tn._maxvol, A64.copy(), e, dr_min, max(dpx, n - r), e0, k0))]
+    for what, got, want in eq:
+        msg = _same(got, want, 1e-12)
+        if msg:
+            return f'{what}: {msg}', raised
+    return None, raised
+
+
+def o_hist08(tn, A, e, dr_min, dr_max, e0, k0):
+    """the SAME array object A goes through maxvol, maxvol_rect, _maxvol, maxvol, maxvol_rect: every answer equals the
+    one of a fresh copy, and A (and the array it is a view of) is bit-identical afterwards"""
+    A64 = np.array(A, dtype=float)
+    n, r = A64.shape
+    dpx = (n - r) if dr_max is None else dr_max
+    seq = [('maxvol', lambda X: tn.maxvol(X, e0, k0)), ('maxvol_rect', lambda X: tn.maxvol_rect(X, e, dr_min, dr_max, e0, k0)),
+           ('_maxvol', lambda X: tn._maxvol(X, e, dr_min, dpx, e0, k0)), ('maxvol', lambda X: tn.maxvol(X, e0, k0)),
+           ('maxvol_rect', lambda X: tn.maxvol_rect(X, e, dr_min, dr_max, e0, k0))]
+    for what, X, doc, tol in _a_forms(A64)[:7]:
+        base = X.base if isinstance(X, np.ndarray) and X.base is not None else X
+        b0, x0 = _snap(base), _snap(X)
+        for step, (fn, c) in enumerate(seq):
+            ref = _impl(c, np.array(X, copy=True, order='K' if what != 'non-contiguous view' else 'C'))
+            got = _impl(c, X)
+            if _snap(X) != x0 or _snap(base) != b0:
+                return f'{fn} (call {step + 1} on the same object, A as {what}) modified its argument A'
+            msg = _same(got, ref, 0.0 if got[0] == 0 and got[2].dtype == np.float64 else tol)
+            if msg:
+                return f'{fn} (call {step + 1} on the same object, A as {what}) differs from the call on a fresh copy: {msg}'
+    return None
+
+
+def _rel_clauses(A, I, B, what):
+    """scale-aware clauses: distinct valid rows, A = B A[I] row-wise relative, B[I] = Id"""
+    n, r = A.shape
+    I = [int(i) for i in I]
+    if len(set(I)) != len(I) or not all(0 <= i < n for i in I):
+        return f'{what}: rows not distinct / invalid: I={I}'
+    if B.shape != (n, len(I)) or not np.all(np.isfinite(B)):
+        return f'{what}: B has shape {B.shape} or is not finite'
+    with np.errstate(all='ignore'):
+        res = np.abs(A - B @ A[I])
+        rowmax = np.abs(A).max(axis=1)          # residual of row a relative to the size of the rows that combine into it
+        bound = (1e-9 * (np.abs(B) @ rowmax[I] + rowmax) + 1e-300).reshape(-1, 1) * np.ones((1, r))
+    if not np.all(res <= bound):
+        a, c = np.unravel_index(np.argmax(res - bound), res.shape)
+        return f'{what}: A != B A[I] at ({a},{c}): residual {res[a, c]:.3e}, allowed {bound[a, c]:.3e}'
+    if not np.abs(B[I] - np.eye(len(I))).max() <= 1e-9:
+        return f'{what}: B[I] != Id'
+    return None
+
+
+def o_scale08(tn, A, e, dr_min, dr_max, e0, k0, rows):
+    """exact power-of-two rescaling of the whole matrix: same I, bit-identical B (2^+-500), same I and B to 1e-9 (2^+-1000);
+    rows rescaled individually by powers of two (list `rows` of exponents, conditioning kept <= 1e8): every clause,
+    scale-aware"""
+    A64 = np.array(A, dtype=float)
+    n, r = A64.shape
+    ref_mv, ref_rc = _impl(tn.maxvol, A64.copy(), e0, k0), _impl(tn.maxvol_rect, A64.copy(), e, dr_min, dr_max, e0, k0)
+    for p in (500, -500, 1000, -1000, 64, -1):
+        As = np.ldexp(A64, p)
+        tol = 0.0 if abs(p) <= 500 else 1e-9
+        for fn, got, ref in [('maxvol', _impl(tn.maxvol, As.copy(), e0, k0), ref_mv),
+                             ('maxvol_rect', _impl(tn.maxvol_rect, As.copy(), e, dr_min, dr_max, e0, k0), ref_rc)]:
+            msg = _same(got, ref, tol)
+            if msg:
+                return f'{fn} on A * 2^{p}: {msg}'
+    Ar = np.ldexp(A64, np.array(rows, dtype=int).reshape(-1, 1))
+    if np.linalg.cond(Ar) > 1e8:        # the property is quantified over conditioning up to 1e8
+        return None
+    m = sys.modules['teneva.maxvol']
+    px = _NpProxy(m.np)
+    m.np = px
+    try:
+        try:
+            I, B = tn.maxvol(Ar.copy(), e0, 10 ** 5)
+        finally:
+            m.np = px._mod
+        msg = _rel_clauses(Ar, I, np.asarray(B), 'maxvol on individually rescaled rows')
+        if msg is None and px.n_outer < 10 ** 5 and not np.abs(B).max() <= e0 * (1 + 1e-9):
+            msg = f'maxvol on individually rescaled rows: limit not hit but max|B| = {float(np.abs(B).max())!r} > e = {e0}'
+        if msg:
+            return msg
+        I, B = tn.maxvol_rect(Ar.copy(), e, dr_min, dr_max, e0, 10 ** 5)
+        hi = min(n, n if dr_max is None else r + dr_max)
+        msg = _rel_clauses(Ar, I, np.asarray(B), 'maxvol_rect on individually rescaled rows')
+        if msg is None and not r + dr_min <= len(I) <= hi:
+            msg = f'maxvol_rect on individually rescaled rows: {len(I)} rows, expected {r + dr_min}..{hi}'
+        if msg is None and len(I) < hi and not np.sqrt((np.asarray(B) ** 2).sum(axis=1)).max() <= e * (1 + 1e-9):
+            msg = 'maxvol_rect on individually rescaled rows: stopped early but a row norm of B exceeds e'
+        return msg
+    except Exception as ex:  # noqa
+        return 'raised on individually rescaled rows: ' + repr(ex)[:200]
+
+
+def o_tie08(tn, A, kind, C=None):
+    """thresholds hit exactly.  kind 'maxvol': e := max|B0| of the recorded LU initialisation -> no swap at all, B = B0;
+    e one ulp below -> at least one swap.  kind 'rect': A = [Id; C] (|C| <= 1, exact squared row norms), e*e == max F
+    exactly -> no row is added (dr_min = 0); e slightly smaller -> a row is added"""
+    A64 = np.array(A, dtype=float)
+    n, r = A64.shape
+    m = sys.modules['teneva.maxvol']
+    if kind == 'maxvol':
+        with Recorder() as rec:
+            tn.maxvol(A64.copy(), 1e30, 0)
+        if not rec.calls:
+            return 'no LU initialisation recorded'
+        I0, B0 = rec.calls[0]
+        e = float(np.abs(B0).max())
+        for ee, want_swaps in ((e, False), (float(np.nextafter(e, 0)), True)):
+            px = _NpProxy(m.np)
+            m.np = px
+            try:
+                I, B = tn.maxvol(A64.copy(), ee, 1000)
+            finally:
+                m.np = px._mod
+            if not want_swaps and (px.n_outer != 0 or list(map(int, I)) != list(I0) or not np.array_equal(B, B0)):
+                return f'maxvol with e == max|B0| = {e!r} exactly: {px.n_outer} swaps instead of 0 (test is |B_ij| <= e)'
+            if want_swaps and e > 1 and px.n_outer == 0:
+                return f'maxvol with e one ulp below max|B0| = {e!r}: no swap'
+        return None
+    e = float(np.sqrt((A64[r:] ** 2).sum(axis=1).max()))
+    I, B = tn.maxvol_rect(A64.copy(), e, 0, None, 1.0, 10)
+    if list(map(int, I)) != list(range(r)):
+        return f'maxvol_rect with e*e == max F = {e * e!r} exactly and dr_min = 0: I = {list(map(int, I))} instead of {list(range(r))}'
+    I, B = tn.maxvol_rect(A64.copy(), e - 2.0 ** -40, 0, None, 1.0, 10)
+    if len(I) <= r:
+        return f'maxvol_rect with e slightly below sqrt(max F) = {e!r}: no row added'
+    return None
+
+
+def _crosscut_one(tn, inp):
+    f = inp['f']
+    A = _unjs(inp['A']).tolist()
+    if f == 'tie':
+        return o_tie08(tn, A, inp['kind'])
+    a = (A, inp['e'], inp['dr_min'], inp['dr_max'], inp['e0'], inp['k0'])
+    if f == 'forms':
+        return o_forms08(tn, *a)[0]
+    if f == 'history':
+        return o_hist08(tn, *a)
+    return o_scale08(tn, *a, inp['rows'])
+
+
 def _check_one(tn, inp, cond=None):
     """run the oracle on one json-able input description; returns failure dict or None"""
     f = inp['f']
+    if f in ('forms', 'history', 'scale', 'tie'):
+        try:
+            msg = _crosscut_one(tn, inp)
+        except Exception as ex:  # noqa
+            msg = f'{f} family: valid call raised ' + repr(ex)[:200]
+        return dict(what=msg, input=dict(inp)) if msg else None
     A = _unjs(inp['A'])
     cond = cond or 10.0 ** inp.get('cond_log10', 3)
     n, r = A.shape
@@ -1336,6 +1606,53 @@ def search(R, ctx, deep, hints):
         run(dict(f='maxvol', A=_js(A), e=rng.choice([1.0, 1.01, 1.05, 1.1]), k=100000, fam=fam), cond=max(1e3, np.linalg.cond(A)))
         if len(fails) >= 12:
             break
+    # 2c. cross-cutting families: argument forms, histories, scales, thresholds hit exactly (small integer matrices,
+    #     incl. r = 1 and n = r + 1; kept only if no decision of the run is within 1e-3 of a tie, so that the float32 /
+    #     float16 forms must take the same decisions)
+    undocumented = set()
+    n_cc = 0
+    for t in range(2000 if deep else 400):
+        if n_cc >= (150 if deep else 36):
+            break
+        r = rng.choice([1, 1, 2, 2, 3, 4])
+        n = rng.choice([r + 1, r + 1, r + 2, 2 * r + 1, 3 * r])
+        lo = 0 if t % 4 == 0 else -4
+        A = nprng.integers(lo, 5, size=(n, r)).astype(float)
+        if t % 7 == 0:
+            A[rng.randrange(n)] = 0.0
+        if np.linalg.matrix_rank(A) < r:
+            continue
+        e, e0 = rng.choice([1.0625, 1.125, 1.25, 1.5, 2.0]), rng.choice([1.0, 1.0625, 1.125, 1.5])
+        dr_min = rng.randint(0, n - r)
+        dr_max = rng.choice([None, dr_min, n - r])
+        k0 = rng.choice([0, 1, 3, 10, 100])
+        if not _safe_at(A.tolist(), e, dr_min, dr_max, e0, k0, 1e-3):
+            continue
+        n_cc += 1
+        base = dict(A=_js(A), e=e, dr_min=dr_min, dr_max=dr_max, e0=e0, k0=k0)
+        n_eval += 1
+        try:
+            msg, raised = o_forms08(tn, A.tolist(), e, dr_min, dr_max, e0, k0)
+        except Exception as ex:  # noqa
+            msg, raised = 'forms family: valid call raised ' + repr(ex)[:200], []
+        undocumented.update(x.split(' = ')[0] + ' ' + x.split('(')[0].split(' = ')[-1] + x[x.rfind(' ->'):] if ' = ' in x else x
+                            for x in raised)
+        if msg:
+            fails.append(dict(what=msg, input=dict(f='forms', **base)))
+        run(dict(f='history', **base))
+        run(dict(f='scale', rows=[rng.choice([0, 0, 1, -1, 5, -5, 10, -10]) for _ in range(n)], **base))
+    for t in range(120 if deep else 30):
+        r = rng.randint(1, 4)
+        n = rng.randint(r + 1, 3 * r + 1)
+        A = np.array([[float(x) for x in row] for row in _gen_L(rng, r, n, POOL_LDY)])
+        run(dict(f='tie', kind='maxvol', A=_js(A)))
+        Cm = nprng.choice([0.0, 1.0, -1.0, 0.5, -0.5, 0.25], size=(n - r, r))
+        F = (Cm ** 2).sum(axis=1).max()
+        if F > 0 and float(np.sqrt(F)) ** 2 == F:
+            run(dict(f='tie', kind='rect', A=_js(np.vstack([np.eye(r), Cm]))))
+    if undocumented:
+        R.notes.append('argument forms outside the documented types that raise (allowed; they never return a different '
+                       'answer): ' + '; '.join(sorted(undocumented))[:1500])
     # 3. rejection clauses and the trivial dispatch
     for t in range(60):
         r = rng.randint(1, 5)
